@@ -17,6 +17,7 @@ enum E8 : uint8 { A8 = 1, B8 = 2 };
 enum E16s : int16 { A16 = -1, B16 = 5 };
 flag F32 : uint32 { X = 1, Y = 2, Z = 0x80000000 };
 enum E24 : int24 { A24 = 1, B24 = -2 };
+struct pnode { uint8 *p; uint8 v; };
 struct other { struct hdr { uint8 hx; uint16 hy; } h; struct itm { uint8 ix; uint16 iy; } it[2]; uint8 t; };
 """
 
@@ -49,6 +50,9 @@ KINDS = {
     "e24": "E24 {n};",
     "ptr": "uint8 *{n};",
     "ptrs": "inner *{n};",
+    "pnode": "pnode {n};",
+    "a_pnode_2": "pnode {n}[2];",
+    "d_pnode": "uint8 {n}_n; pnode {n}[{n}_n];",
     "void": "void {n};",
     "a_u16_3": "uint16 {n}[3];",
     "a_i24_2": "int24 {n}[2];",
